@@ -1,11 +1,12 @@
 (* C11 — property theorems only.
-   zix_normal = faithful model of zix_path_lexically_normal (PathNormModel.v),
-   std_normal = C++17 lexically_normal (PathNormSpec.v), peqb/peq = path equality (operator==).
+   zix_normal = faithful model of zix_path_lexically_normal as repaired by the four fix: commits
+   (PathNormModel.v), std_normal = C++17 lexically_normal (PathNormSpec.v), peq = path equality
+   (operator==), is_normal_form = the five syntactic conditions of the property text.
 
-   FULL STATEMENT OF THE PROPERTY (REFUTED on the current tree, see zix_normal_refuted_A..D):
-     forall s, peq (zix_normal s) (std_normal s) /\ is_normal_form (zix_normal s) = true.       *)
+   The property's full statement is the theorem zix_normal_correct below, for every C string
+   whose allocation request len + 2 does not wrap. *)
 From Coq Require Import ZArith List Bool.
-From Zix Require Import PathNormSpec PathNormModel PathNormProofsSpec PathNormProofsModel PathNormProofsDD PathNormProofsTail PathNormProofsPlain PathNormProofsTotal PathNormProofs.
+From Zix Require Import PathNormSpec PathNormModel PathNormProofsSpec PathNormProofsModel PathNormProofsDD PathNormProofsTail PathNormProofsPlain PathNormProofs.
 Import ListNotations.
 Local Open Scope Z_scope.
 
@@ -28,122 +29,43 @@ Print Assumptions normal_form_fixed_point.
 Example normal_form_example : is_normal_form [DOT; DOT; SEP; 97; SEP; 98; SEP] = true.
 Proof. reflexivity. Qed.
 
-(* ---- the model is total: the fuel (len+2)^2 of the dot-dot pass and len+1 of the other loops
-        is never exhausted, for EVERY input string, the four defective classes included -------- *)
-Theorem zix_normal_terminates : forall s, zlen s + 2 < 2 ^ 64 -> zix_normal_opt s <> None.
-Proof. exact zix_normal_total. Qed.
-Print Assumptions zix_normal_terminates.
-
-(* ---- refutations: one witness in each class (and in no other class) ------------------ *)
-
-Theorem zix_normal_refuted_A :
-  exists s, class_A s = true /\ class_B s = false /\ class_C s = false /\ class_D s = false /\
-            peqb (zix_normal s) (std_normal s) = false.
-Proof.
-  exists witness_A. destruct refute_A as (H & _ & P & _). revert H P. vm_compute. intuition congruence.
-Qed.
-Print Assumptions zix_normal_refuted_A.
-
-Theorem zix_normal_refuted_B :
-  exists s, class_B s = true /\ class_A s = false /\ class_C s = false /\ class_D s = false /\
-            peqb (zix_normal s) (std_normal s) = false.
-Proof.
-  exists witness_B. destruct refute_B as (H & _ & _ & P). revert H P. vm_compute. intuition congruence.
-Qed.
-Print Assumptions zix_normal_refuted_B.
-
-Theorem zix_normal_refuted_C :
-  exists s, class_C s = true /\ class_A s = false /\ class_B s = false /\ class_D s = false /\
-            peqb (zix_normal s) (std_normal s) = false.
-Proof.
-  exists witness_C. destruct refute_C as (H & _ & P). revert H P. vm_compute. intuition congruence.
-Qed.
-Print Assumptions zix_normal_refuted_C.
-
-Theorem zix_normal_refuted_D :
-  exists s, class_D s = true /\ class_A s = false /\ class_B s = false /\ class_C s = false /\
-            peqb (zix_normal s) (std_normal s) = false /\ is_normal_form (zix_normal s) = false.
-Proof.
-  exists witness_D. destruct refute_D as (H & _ & P & Q). revert H P Q. vm_compute. intuition congruence.
-Qed.
-Print Assumptions zix_normal_refuted_D.
-
-(* ---- the positive part ---------------------------------------------------------------------
-   zix_normal_partial: for EVERY C string of  plain s = ~A /\ ~B /\ ~C /\ ~D  (the complement of the
-   four finding classes) whose length fits a size_t allocation (len + 2 < 2^64), the index-faithful
-   model of the four passes does not run out of fuel and returns EXACTLY the text of std_normal,
-   hence the same path, in normal form.  Together with zix_normal_refuted_A..D this is the
-   property's statement with the extra hypothesis `plain s`, which is precisely the decidable
-   predicate that excludes the known findings. *)
-
-Theorem zix_normal_partial : forall s, c_string s -> zlen s + 2 < 2 ^ 64 -> plain s = true ->
+(* ---- the code: FULL statement -----------------------------------------------------------------
+   For EVERY C string s (no NUL byte) with len + 2 < 2^64: the index-faithful model of the four
+   passes (root copy, dot/separator pass, dot-dot pass with memmove and restart-from-0, root
+   dot-dot pass, tail rules) does not run out of fuel and returns EXACTLY the text of
+   std_normal s; hence the same path as the C++17 lexically_normal, in normal form. *)
+Theorem zix_normal_correct : forall s, c_string s -> zlen s + 2 < 2 ^ 64 ->
   zix_normal_opt s = Some (std_normal s) /\
   peq (zix_normal s) (std_normal s) /\ is_normal_form (zix_normal s) = true.
 Proof.
-  intros s Hc HW H. pose proof (zix_normal_plain s Hc HW H) as E. split; [exact E|].
+  intros s Hc HW. pose proof (zix_normal_all s Hc HW) as E. split; [exact E|].
   unfold zix_normal. rewrite E. split; [split; reflexivity|apply std_normal_nf].
 Qed.
-Print Assumptions zix_normal_partial.
+Print Assumptions zix_normal_correct.
 
-(* the sub-class without any field ending in ".." needs no bound on the length *)
-Theorem zix_normal_partial_no_dotdot : forall s, c_string s -> no_dotdot_tail s = true ->
-  zix_normal_opt s = Some (std_normal s).
-Proof. exact zix_normal_on_class. Qed.
-Print Assumptions zix_normal_partial_no_dotdot.
+Theorem zix_normal_terminates : forall s, c_string s -> zlen s + 2 < 2 ^ 64 -> zix_normal_opt s <> None.
+Proof. intros s Hc HW. rewrite (zix_normal_all s Hc HW). discriminate. Qed.
+Print Assumptions zix_normal_terminates.
 
-(* the hypotheses are satisfiable on non-trivial strings: "/./a//.b/./c./" and "x/." *)
-Example partial_example_1 :
-  no_dotdot_tail [SEP; DOT; SEP; 97; SEP; SEP; DOT; 98; SEP; DOT; SEP; 99; DOT; SEP] = true /\
-  zix_normal [SEP; DOT; SEP; 97; SEP; SEP; DOT; 98; SEP; DOT; SEP; 99; DOT; SEP]
-  = [SEP; 97; SEP; DOT; 98; SEP; 99; DOT; SEP].
-Proof. vm_compute. split; reflexivity. Qed.
-Example partial_example_2 : no_dotdot_tail [120; SEP; DOT] = true /\ zix_normal [120; SEP; DOT] = [120; SEP].
-Proof. vm_compute. split; reflexivity. Qed.
-(* "/../a/b/../../c/.." is plain, contains ".." under the root, after names, and at the end *)
-Example partial_example_3 :
-  plain [SEP; DOT; DOT; SEP; 97; SEP; 98; SEP; DOT; DOT; SEP; DOT; DOT; SEP; 99; SEP; DOT; DOT] = true /\
-  zix_normal [SEP; DOT; DOT; SEP; 97; SEP; 98; SEP; DOT; DOT; SEP; DOT; DOT; SEP; 99; SEP; DOT; DOT] = [SEP].
-Proof. vm_compute. split; reflexivity. Qed.
-
-(* the proved class lies inside `plain` (none of the four finding classes) *)
-Theorem no_dotdot_tail_is_plain : forall s, no_dotdot_tail s = true -> plain s = true.
-Proof. exact no_dotdot_tail_plain. Qed.
-Print Assumptions no_dotdot_tail_is_plain.
-
-(* idempotence on the proved class: plain is closed under normalisation (plain_closed), so the
-   model returns its own result unchanged.  The second bound is on the length of the result (the
-   allocation of the second call); |std_normal s| <= |s| is not proved, hence the hypothesis. *)
-Theorem plain_closed : forall s, plain s = true -> plain (std_normal s) = true.
-Proof. exact std_normal_plain. Qed.
-Print Assumptions plain_closed.
-
-Corollary zix_normal_idempotent_partial : forall s, c_string s -> zlen s + 2 < 2 ^ 64 ->
-  zlen (std_normal s) + 2 < 2 ^ 64 -> plain s = true ->
-  zix_normal (zix_normal s) = zix_normal s.
-Proof. exact zix_normal_idem_plain. Qed.
-Print Assumptions zix_normal_idempotent_partial.
-
-(* on the sub-class without any field ending in ".." no length bound is needed *)
-Corollary zix_normal_idempotent_no_dotdot : forall s, c_string s -> no_dotdot_tail s = true ->
-  zix_normal (zix_normal s) = zix_normal s.
-Proof. exact zix_normal_idem_on_class. Qed.
-Print Assumptions zix_normal_idempotent_no_dotdot.
-
-(* FULL idempotence statements, REFUTED outside the proved class (inside the finding classes):
-     forall s, zix_normal (zix_normal s) = zix_normal s                 -- "//./" -> "/./" -> "/"
-     forall s, is_normal_form s = true -> peq (zix_normal s) s          -- "a../" -> "a.."        *)
-Theorem zix_normal_idempotent_refuted :
-  exists s, class_A s = true /\ zix_normal (zix_normal s) <> zix_normal s.
+(* normalising an already normal path returns it unchanged (as a path) *)
+Theorem zix_normal_fixed_point : forall s, c_string s -> zlen s + 2 < 2 ^ 64 ->
+  is_normal_form s = true -> peq (zix_normal s) s.
 Proof.
-  exists witness_idem. destruct refute_idem as (E1 & E2 & A). split; [exact A|].
-  rewrite E2, E1. discriminate.
+  intros s Hc HW Hn. unfold zix_normal. rewrite (zix_normal_all s Hc HW). apply std_normal_fixed. exact Hn.
 Qed.
-Print Assumptions zix_normal_idempotent_refuted.
+Print Assumptions zix_normal_fixed_point.
 
-Theorem zix_normal_fixed_point_refuted :
-  exists s, class_C s = true /\ is_normal_form s = true /\ peqb (zix_normal s) s = false.
-Proof.
-  exists witness_C. destruct refute_fixed as (N & P). destruct refute_C as (O & _).
-  split; [|split; assumption]. revert O. vm_compute. intuition congruence.
-Qed.
-Print Assumptions zix_normal_fixed_point_refuted.
+(* idempotence.  The second bound is on the length of the result (the allocation of the second
+   call); |std_normal s| <= |s| is not proved, hence the hypothesis. *)
+Theorem zix_normal_idempotent : forall s, c_string s -> zlen s + 2 < 2 ^ 64 ->
+  zlen (std_normal s) + 2 < 2 ^ 64 -> zix_normal (zix_normal s) = zix_normal s.
+Proof. exact zix_normal_idem_all. Qed.
+Print Assumptions zix_normal_idempotent.
+
+(* the witnesses of the four former finding classes (and of the former idempotence failure),
+   computed by the model of the repaired code *)
+Example former_witnesses_now_correct :
+  zix_normal witness_A = [SEP; 97] /\ zix_normal witness_B = [120; SEP] /\
+  zix_normal witness_C = witness_C /\ zix_normal witness_D = [DOT; DOT] /\
+  zix_normal witness_D2 = [SEP] /\ zix_normal witness_idem = [SEP].
+Proof. destruct former_witnesses as (A & B0 & C & D & D2 & I & _). repeat split; assumption. Qed.
